@@ -66,25 +66,48 @@ KEYS = ("name", "archqual", "version", "arch", "restrictions")
 
 
 def _sizes(tier):
-    return (80, 12) if tier == "quick" else (320, 24)
+    # thorough: the pair core is the complete atom product (every atom), the triple core 96 atoms
+    return (80, 12) if tier == "quick" else (N_ATOMS, 96)
+
+
+ALL = "all"          # in a work unit: stands for the complete atom list (not shipped to the workers with every unit)
+_ALL_INDEXES = []
+
+
+def _core(x):
+    """the core a work unit names: a list of index tuples, or ALL = every atom in canonical order"""
+    if x != ALL:
+        return x
+    if not _ALL_INDEXES:
+        _ALL_INDEXES.extend(all_indexes())
+    return _ALL_INDEXES
+
+
+def _core_len(x):
+    return len(_core(x))
 
 
 def bounds(tier):
     pc, tc = _sizes(tier)
-    return {"names": 4, "archqual": "5 (absent, any, native, i386, kfreebsd-amd64)",
-            "version": "11 (absent, 5 operators x 2 versions)", "arch_lists": 4, "restriction_formulas": 4,
-            "atoms": 3520, "pair_core": pc, "pairs": "%d ordered pairs x {OR, AND}" % (pc * pc),
+    return {"names": RADIX[0], "archqual": "%d (absent, any, native, i386, kfreebsd-amd64)" % RADIX[1],
+            "version": "%d (absent, 5 operators x 2 versions)" % RADIX[2],
+            "arch_lists": "%d (absent, one name, two negated names, two plain names, negated / plain / negated, plain / negated)"
+                          % RADIX[3],
+            "restriction_formulas": RADIX[4],
+            "atoms": N_ATOMS,
+            "pair_core": pc if pc < N_ATOMS else "%d = every atom of the product (all ordered pairs of atoms)" % N_ATOMS,
+            "pairs": "%d ordered pairs x {OR, AND}" % (pc * pc),
             "triple_core": tc, "triples": "%d ordered triples x 4 AND/OR shapes" % (tc ** 3),
             "sweep": "one legal character at a time in one component of a fully featured single atom (%s): "
                      % SWEEP_BASE_TEXT + ", ".join("%s x %d" % (name, len(vals)) for name, vals in sweep_plan()),
-            "aliasing": "every one of the 3520 atoms + %d ordered pairs over the triple core x {OR, AND}; edits per result: "
+            "aliasing": "every one of the %d atoms + %d ordered pairs over the triple core x {OR, AND}; edits per result: "
                         "append to every 'arch' list, to the first group of and to every 'restrictions' list, replace "
-                        "every 'version', append an alternative to every group, append a group" % (tc * tc),
-            "key_orders": "every one of the 3520 atoms x up to %d non-canonical key lists (%s; duplicates for an atom "
+                        "every 'version', append an alternative to every group, append a group" % (N_ATOMS, tc * tc),
+            "key_orders": "every one of the %d atoms x up to %d non-canonical key lists (%s; duplicates for an atom "
                           "dropped); every pair-core atom x all 120 insertion orders of the five keys and all orders of "
                           "('name' + the keys that carry a value); %d ordered pairs over the triple core x {OR, AND} x up "
                           "to 15 combinations of per-atom key lists from (%s)"
-                          % (len(NAMED_ORDERS), ", ".join(NAMED_ORDERS), tc * tc, ", ".join(PAIR_ORDERS)),
+                          % (N_ATOMS, len(NAMED_ORDERS), ", ".join(NAMED_ORDERS), tc * tc, ", ".join(PAIR_ORDERS)),
             "repetitions": "every pair-core atom a (b, c = the next two core atoms) x shapes %s x {equal but distinct "
                            "objects, one shared object per distinct atom and group}; cases already in the pair / triple "
                            "spaces are not repeated" % ", ".join(REPEAT_SHAPES),
@@ -133,14 +156,21 @@ def comps(seed):
         "name": [L, L + "1", "lib-x.y+z", "0" + L + "d"],
         "archqual": [None, "any", "native", "i386", "kfreebsd-amd64"],
         "version": [None] + [[op, v] for op in ops for v in vers],
+        # the last two mix negated and plain names in one list, in both orders (a parser that carries the '!' of one
+        # name over to the next one is invisible on lists that are all negated or all plain)
         "arch": [None, [[True, "amd64"]], [[False, "i386"], [False, "hurd-any"]],
-                 [[True, "linux-any"], [True, "kfreebsd-amd64"]]],
+                 [[True, "linux-any"], [True, "kfreebsd-amd64"]],
+                 [[False, "i386"], [True, "amd64"], [False, "hurd-any"]], [[True, "amd64"], [False, "i386"]]],
         "restrictions": [None, [[[True, "stage1"]]], [[[False, "nocheck"], [True, "cross"]]],
                          [[[False, P]], [[True, "b"], [False, "c"]]]],
     }
 
 
-RADIX = (4, 5, 11, 4, 4)
+RADIX = tuple(len(comps(0)[k]) for k in KEYS)        # (4, 5, 11, 6, 4)
+N_ATOMS = 1
+for _r in RADIX:
+    N_ATOMS *= _r
+PER_UNIT = RADIX[2] * RADIX[3] * RADIX[4]            # atoms per (name, archqual) unit
 
 # ------------------------------------------------------------------------------------------------
 # sweep: one legal character at a time in a fully featured atom
@@ -633,35 +663,46 @@ def cores(tier):
 def units(tier, seed):
     out = [("atoms", n, q) for n in range(RADIX[0]) for q in range(RADIX[1])]
     pc, tc = cores(tier)          # computed once in the parent; units carry the cores to the workers
-    out += [("pairs", i, pc) for i in range(len(pc))]
+    npc = len(pc)
+    if pc == all_indexes():
+        pc = ALL                  # every atom: the workers rebuild the list themselves
+    # the cheap per-atom units are batched when the pair core is large (a batch is a (first, end) index range)
+    batch = 1 if npc <= 320 else 16
+    firsts = list(range(npc)) if batch == 1 else [(i, min(i + batch, npc)) for i in range(0, npc, batch)]
+    out += [("pairs", i, pc) for i in range(npc)]
     out += [("triples", i, tc) for i in range(len(tc))]
     out += [("sweep", name) for name, _v in sweep_plan()]
     out += [("alias", n, q) for n in range(RADIX[0]) for q in range(RADIX[1])]
     out += [("alias-pairs", i, tc) for i in range(len(tc))]
     out += [("keys", n, q) for n in range(RADIX[0]) for q in range(RADIX[1])]
-    out += [("keys-perm", i, pc) for i in range(len(pc))]
+    out += [("keys-perm", i, pc) for i in firsts]
     out += [("keys-pairs", i, tc) for i in range(len(tc))]
-    out += [("repeat", i, pc, tc) for i in range(len(pc))]
+    out += [("repeat", i, pc, tc) for i in firsts]
     return out
+
+
+def _first_indexes(i):
+    """the first-atom indexes of a per-atom unit: one index, or a (first, end) range"""
+    return range(*i) if isinstance(i, tuple) else (i,)
 
 
 def unit_cost(u, tier):
     if u[0] in ("atoms", "alias"):
-        return 176
+        return PER_UNIT
     if u[0] == "alias-pairs":
         return 2 * 2 * len(u[2])
     if u[0] == "pairs":
-        return 2 * 2 * len(u[2])
+        return 2 * 2 * _core_len(u[2])
     if u[0] == "sweep":
         return 80
     if u[0] == "keys":
-        return 176 * 4
+        return PER_UNIT * 4
     if u[0] == "keys-perm":
-        return 130
+        return 130 * len(_first_indexes(u[1]))
     if u[0] == "keys-pairs":
         return 2 * 8 * len(u[2])
     if u[0] == "repeat":
-        return 2 * len(REPEAT_SHAPES)
+        return 2 * len(REPEAT_SHAPES) * len(_first_indexes(u[1]))
     return 3 * 4 * len(u[2]) ** 2
 
 
@@ -751,16 +792,18 @@ def run_unit(u, tier, seed):
                         part.sample(case)
         return part
     if u[0] == "keys-perm":
-        _, i, pc = u
-        at = atom(C, pc[i])
+        _, ii, pc = u
+        pc = _core(pc)
         part.max_depth = 6
-        for kl in perm_key_lists(at):
-            node()
-            case = {"rels": [[at]], "keys": [kl]}
-            _do(part, case)
-            part.extra["key orders: pair-core atoms x remaining permutations"] += 1
-        if i % 16 == 0:
-            part.sample(case)
+        for i in _first_indexes(ii):
+            at = atom(C, pc[i])
+            for kl in perm_key_lists(at):
+                node()
+                case = {"rels": [[at]], "keys": [kl]}
+                _do(part, case)
+                part.extra["key orders: pair-core atoms x remaining permutations"] += 1
+            if i % 16 == 0:
+                part.sample(case)
         return part
     if u[0] == "keys-pairs":
         _, i, tc = u
@@ -778,33 +821,36 @@ def run_unit(u, tier, seed):
             part.sample(case)
         return part
     if u[0] == "repeat":
-        _, i, pc, tc = u
-        abc = dict((x, atom(C, pc[(i + j) % len(pc)])) for j, x in enumerate("abc"))
-        in_tc = dict((x, pc[(i + j) % len(pc)] in tc) for j, x in enumerate("abc"))
+        _, ii, pc, tc = u
+        pc = _core(pc)
+        tcs = set(tuple(x) for x in tc)
         part.max_depth = 20
-        for shape in REPEAT_SHAPES:
-            used = [x for x in shape if x in "abc"]
-            for share in (0, 1):
-                if not share and len(used) == 2:
-                    continue        # (a, a): in the pair space
-                if not share and len(used) == 3 and all(in_tc[x] for x in used):
-                    continue        # three atoms of the triple core: in the triple space (all four shapes are)
-                node()
-                case = {"rels": letters_rels(shape, abc)}
-                if share:
-                    case["share"] = 1
-                bad, outcome, ev = exec_case(case)
-                part.traces += 1
-                part.evaluations += ev
-                part.outcomes["repeat %s%s: %s" % (shape, ", shared objects" if share else "",
-                                                   "VIOLATION" if bad else "round trip ok")] += 1
-                if nontrivial(case):
-                    part.nontrivial += 1
-                for sig, exp, obs in bad:
-                    part.violation(sig, case, exp, obs)
-                part.extra["repetitions"] += 1
-        if i % 16 == 0:
-            part.sample(case)
+        for i in _first_indexes(ii):
+            abc = dict((x, atom(C, pc[(i + j) % len(pc)])) for j, x in enumerate("abc"))
+            in_tc = dict((x, tuple(pc[(i + j) % len(pc)]) in tcs) for j, x in enumerate("abc"))
+            for shape in REPEAT_SHAPES:
+                used = [x for x in shape if x in "abc"]
+                for share in (0, 1):
+                    if not share and len(used) == 2:
+                        continue        # (a, a): in the pair space
+                    if not share and len(used) == 3 and all(in_tc[x] for x in used):
+                        continue        # three atoms of the triple core: in the triple space (all four shapes are)
+                    node()
+                    case = {"rels": letters_rels(shape, abc)}
+                    if share:
+                        case["share"] = 1
+                    bad, outcome, ev = exec_case(case)
+                    part.traces += 1
+                    part.evaluations += ev
+                    part.outcomes["repeat %s%s: %s" % (shape, ", shared objects" if share else "",
+                                                       "VIOLATION" if bad else "round trip ok")] += 1
+                    if nontrivial(case):
+                        part.nontrivial += 1
+                    for sig, exp, obs in bad:
+                        part.violation(sig, case, exp, obs)
+                    part.extra["repetitions"] += 1
+            if i % 16 == 0:
+                part.sample(case)
         return part
     if u[0] == "sweep":
         atoms = dict(sweep_plan())[u[1]]
@@ -824,6 +870,7 @@ def run_unit(u, tier, seed):
         return part
     if u[0] == "pairs":
         _, i, pc = u
+        pc = _core(pc)
         a1 = atom(C, pc[i])
         node()
         part.max_depth = 10
